@@ -14,6 +14,7 @@ std::unique_ptr<IWorld> make_world_0_7();
 std::unique_ptr<IWorld> make_world_0_8();
 std::unique_ptr<IWorld> make_world_0_9();
 std::unique_ptr<IWorld> make_world_0_10();
+std::unique_ptr<IWorld> make_world_0_11();
 std::unique_ptr<IWorld> make_world_1_0();
 std::unique_ptr<IWorld> make_world_1_1();
 std::unique_ptr<IWorld> make_world_1_2();
@@ -25,6 +26,7 @@ std::unique_ptr<IWorld> make_world_1_7();
 std::unique_ptr<IWorld> make_world_1_8();
 std::unique_ptr<IWorld> make_world_1_9();
 std::unique_ptr<IWorld> make_world_1_10();
+std::unique_ptr<IWorld> make_world_1_11();
 std::unique_ptr<IWorld> make_world_2_0();
 std::unique_ptr<IWorld> make_world_2_1();
 std::unique_ptr<IWorld> make_world_2_2();
@@ -36,6 +38,7 @@ std::unique_ptr<IWorld> make_world_2_7();
 std::unique_ptr<IWorld> make_world_2_8();
 std::unique_ptr<IWorld> make_world_2_9();
 std::unique_ptr<IWorld> make_world_2_10();
+std::unique_ptr<IWorld> make_world_2_11();
 
 std::unique_ptr<IWorld> make_world(int nt, int eng)
 {
@@ -52,6 +55,7 @@ std::unique_ptr<IWorld> make_world(int nt, int eng)
     case 8: return make_world_0_8();
     case 9: return make_world_0_9();
     case 10: return make_world_0_10();
+    case 11: return make_world_0_11();
     case 16: return make_world_1_0();
     case 17: return make_world_1_1();
     case 18: return make_world_1_2();
@@ -63,6 +67,7 @@ std::unique_ptr<IWorld> make_world(int nt, int eng)
     case 24: return make_world_1_8();
     case 25: return make_world_1_9();
     case 26: return make_world_1_10();
+    case 27: return make_world_1_11();
     case 32: return make_world_2_0();
     case 33: return make_world_2_1();
     case 34: return make_world_2_2();
@@ -74,6 +79,7 @@ std::unique_ptr<IWorld> make_world(int nt, int eng)
     case 40: return make_world_2_8();
     case 41: return make_world_2_9();
     case 42: return make_world_2_10();
+    case 43: return make_world_2_11();
     default: return nullptr;
     }
 }
